@@ -146,4 +146,83 @@ theorem onLastParked_keeps_exit_reqs {c : Cfg} {s s' : State} {tag : Nat} {r : L
     · cases this
     · cases this
 
+theorem afterUnpark_exit {t : State} {g : Goal} (x : Nat) (h : t.current = some g) (hx : g.isExit = true) :
+    (afterUnpark t x).pc x = .exited := by
+  unfold afterUnpark
+  cases g
+  · cases hx
+  · simp [h, setPc]
+  · simp [h, setPc]
+
+
+/-- a park that changes `gcDone` ran `on_last_parked` with the Gc goal current -/
+theorem onLastParked_gcDone_current {c : Cfg} {s s' : State} {tag : Nat} {r : LPR}
+    (h : onLastParked c s tag = some (s', r)) (hd : s'.gcDone ≠ s.gcDone) : s.current = some .gc := by
+  cases hcur : s.current with
+  | none =>
+    exfalso; apply hd
+    unfold onLastParked at h
+    simp only [hcur] at h
+    exact respond_gcDone c _ _ _ _ h
+  | some g =>
+    cases g
+    · rfl
+    · unfold onLastParked at h; simp only [hcur] at h; cases h
+    · unfold onLastParked at h; simp only [hcur] at h; cases h
+
+/-- **exit_request_survives_gc**: the `park` step that completes a GC (`gcDone` changes) while a `Shutdown` /
+`StopForFork` request is pending.  That step is the park of the last parker with the Gc goal current and no Gc
+request pending; every other worker is woken by it, and either the exit goal is now current and the parker has
+left its loop (`respond_to_requests` started the goal: stop-the-world GC / final pause), or — concurrent work was
+scheduled — no goal is current, the exit request is still pending and the parker is polling again. -/
+theorem exit_request_survives_gc {c : Cfg} {s s' : State} {w tag : Nat} (hr : Reachable c s)
+    (hs : step c s (.park w tag) = some s') (hd : s'.gcDone ≠ s.gcDone)
+    (hreq : s.reqShutdown = true ∨ s.reqFork = true) :
+    s.current = some .gc ∧ s.parked + 1 = c.n ∧ s.reqGc = false ∧ s'.creation = s.creation ∧
+    (∀ x, x < c.n → x ≠ w → s'.pc x = .woken) ∧
+    (((∃ g, s'.current = some g ∧ g.isExit = true) ∧ s'.pc w = .exited) ∨
+     (s'.current = none ∧ s'.reqGc = false ∧ (s'.reqShutdown = true ∨ s'.reqFork = true) ∧ s'.pc w = .polling [])) := by
+  obtain ⟨hw, hpcw, _, hcase⟩ := step_park_cases hs
+  rcases hcase with ⟨_, e⟩ | ⟨hlast, s1, r, hl, he⟩
+  · rw [e] at hd; exact absurd rfl hd
+  · have hd1 : s1.gcDone ≠ ({ s with parked := s.parked + 1, trace := [] } : State).gcDone := by
+      intro e; apply hd; rw [he]; exact e
+    have hc := onLastParked_gcDone_current hl hd1
+    obtain ⟨hgc, hrest⟩ := onLastParked_completing hl hc hd1
+    obtain ⟨hr1, hcases⟩ := hrest hreq
+    subst hr1
+    have f := frame_onLastParked c _ _ _ _ hl
+    have hs' := step_park_wakeAll hs hlast hl
+    have hA := reachable_invA hr
+    have hpar := countW_all_but c.n (fun y => (s.pc y).isParked) w hw (by simp [hpcw, PC.isParked])
+      (by have := hA.parked_eq; unfold parkedCount at this; omega)
+    have hcr : s'.creation = s.creation := by
+      rw [he]; show s1.creation = s.creation; rw [f.creation]
+    have hothers : ∀ x, x < c.n → x ≠ w → s'.pc x = .woken := by
+      intro x hx e
+      rw [hs', afterUnpark_pc_other e]
+      have hp : (s.pc x).isParked = true := hpar x hx e
+      have hpc1 : s1.pc x = s.pc x := by rw [f.pc]
+      show (if s1.pc x = .waiting then PC.woken else s1.pc x) = .woken
+      rw [hpc1]
+      generalize s.pc x = p at hp
+      cases p <;> first | rfl | (simp [PC.isParked] at hp) | simp
+    refine ⟨hc, hlast, hgc, hcr, hothers, ?_⟩
+    rcases hcases with ⟨g, hg1, hg2⟩ | ⟨hn1, hn2, hn3, hn4⟩
+    · left
+      refine ⟨⟨g, by rw [he]; exact hg1, hg2⟩, ?_⟩
+      rw [hs']
+      exact afterUnpark_exit (t := { notifyAll s1 with parked := (notifyAll s1).parked - 1 }) w hg1 hg2
+    · right
+      refine ⟨by rw [he]; exact hn1, by rw [he]; exact hn2, ?_, ?_⟩
+      · rcases hreq with h | h
+        · left; rw [he]; show s1.reqShutdown = true; rw [hn3]; exact h
+        · right; rw [he]; show s1.reqFork = true; rw [hn4]; exact h
+      · rw [hs']
+        have : NoExit ({ notifyAll s1 with parked := (notifyAll s1).parked - 1 } : State) := by
+          intro g hg
+          have : s1.current = some g := hg
+          rw [hn1] at this; cases this
+        rw [afterUnpark_noExit w this, setPc_pc_self]
+
 end Mmtk.Sched
